@@ -112,11 +112,13 @@ CHECKS = {
             "derived exp/log product equals MulDef for all pairs. Finite domain, enumerated completely.",
             "Entries at indices beyond the field (doubled tables) are reported as DRIFT only.",
             "TLC evaluation of the field definition over a complete table dump (TableTrace)", "5/C14"),
-    "C16": (MC, "For every (k, n-k) with k<=16, n<=24 the codec accepts (probed), ApiTrace checks Pchk2D!IsProductCode on the session's equations, "
+    "C16": (MC, "The shared IT and ML engine models (LdpcIt/LdpcMl) are model-checked on 2D product codes (Ldpc2D_MC: all arrival sequences and "
+            "finish calls of 2x2, 1x3, 2x3, ...: soundness, peeling refinement, ML completeness, single-loss recovery, product structure). "
+            "For every (k, n-k) with k<=16, n<=24 the codec accepts (probed), ApiTrace checks Pchk2D!IsProductCode on the session's equations, "
             "every built repair symbol against its check, and decoding histories (every single loss, all subsets for small n, bounded-loss and "
             "random patterns otherwise, both APIs, callbacks, release at every point) against peeling closure / GF(2) solvability, soundness and the ledger.",
             "Equations read from the control block after of_set_fec_parameters; n>16 sampled rather than all 2^n.",
-            "TLC trace validation (ApiTrace + Pchk2D)", "5/C16"),
+            "TLC model checking (Ldpc2D_MC) + TLC trace validation (ApiTrace + Pchk2D)", "5/C16"),
     "C15": (MC, "For every recorded LDPC session TLC evaluates, on the session's own equations, whether the sum of all "
             "equations isolates the last repair symbol; a claim (OF_CRTL_LDPC_STAIRCASE_IS_LAST_SYMBOL_NULL) must imply "
             "it and must agree between encoder and decoder sessions of equal parameters. The LastNull lemma of the "
